@@ -21,6 +21,8 @@ def rich_message(rng, kind):
         if k in ("device", "name", "label", "group", "message", "timestamp", "uid", "version", "timeout"):
             if rng.random() < 0.6:
                 m["attrs"][k] = rnd_text(rng, 1, 6)
+            elif k in ("label", "group", "message", "timestamp") and rng.random() < 0.3:
+                m["attrs"][k] = ""        # present and empty is not the same as absent
     for p in m["children"] or []:
         dom = msggen.PARTS[p["kind"]][2]
         if rng.random() < 0.6:
